@@ -271,3 +271,14 @@ M('c18-receive-disconnect-shortcut-on-entry', 'C18', 'R6', WS,
 
         while not self._messages:
             # ----""")
+
+M('c18-require-accepted-checks-disconnect-flag', 'C18', 'R7', 'falcon/asgi/ws.py',
+  """        elif self._state == _WebSocketState.CLOSED:
+            raise errors.WebSocketDisconnected(self._close_code)
+
+    def _translate_webserver_error""", """        elif self._state == _WebSocketState.CLOSED:
+            raise errors.WebSocketDisconnected(self._close_code)
+        elif self._buffered_receiver.client_disconnected:
+            raise errors.WebSocketDisconnected(self._buffered_receiver.client_disconnected_code)
+
+    def _translate_webserver_error""", also=('C17',))
